@@ -12,6 +12,7 @@ VERIF=os.path.dirname(os.path.dirname(os.path.abspath(__file__)))
 def load_registry(repo='/repo'):
   reg=Registry(repo)
   reg.handlers.append(ConcreteList())
+  from . import symcoll; symcoll.install(reg)
   if VERIF not in sys.path: sys.path.insert(0,VERIF)
   import contracts
   for modname in contracts.MODULES:
@@ -55,6 +56,7 @@ def sample_value(t,rng,n,repo,reg,name=''):
 def sample_contract(reg,c,repo,seed,count):
   """run the real function on `count` sampled inputs per view variant and evaluate the contract natively.
   returns dict(evaluations, per_case, failures[list], skipped)."""
+  if c.sample is False: return dict(evaluations=0,per_case={},failures=[],skipped=0)
   rng=random.Random((seed*1000003) ^ int(hashlib.sha256(c.key.encode()).hexdigest()[:8],16))
   ns=runtime.macro_namespace()
   per_case={cs.name:0 for cs in c.cases}; fails=[]; ev=0; skipped=0
